@@ -115,7 +115,7 @@ def encode(sc):
         if e.get('gen_pattern'):
             out += [107, key] + pad([z + 2 for z in e['gen_pattern']], 6)      # sizes: -1 empty batch, 0 single part, n a batch of n
         for which in ('receive', 'finish', 'shutdown', 'restore'):
-            for _ in range(2 if which == 'shutdown' and e.get('dup_shutdown') else 1):     # registered twice: runs twice, in order
+            for _ in range(2 if e.get('dup_' + which) else 1):     # registered twice: runs twice, in order
                 for cb in e.get('on_' + which, []):
                     out += [105, key, WHICH[which], CBOPS[cb[0]]] + pad(cb[1:], 4)
     for n, a in sc['pools']:
@@ -308,10 +308,12 @@ def build(sc):
                              ('shutdown', 'add_shutdown_callback'), ('restore', 'add_restored_callback')):
             ops = e.get('on_' + which)
             if ops:
-                cb = make_cb(nid(o), which, ops)
-                getattr(o, adder)(cb)
-                if which == 'shutdown' and e.get('dup_shutdown'):
-                    getattr(o, adder)(cb)
+                # one callback object per scripted operation: they run once per occurrence, in registration order, and a callback
+                # registered a second time runs a second time
+                cbs = [make_cb(nid(o), which, [op]) for op in ops]
+                for _ in range(2 if e.get('dup_' + which) else 1):
+                    for cb in cbs:
+                        getattr(o, adder)(cb)
         return o
     W.make = make
 
